@@ -48,6 +48,26 @@ impl Base {
     }
 }
 
+
+thread_local! { static AXIS_BAD: std::cell::RefCell<Vec<String>> = std::cell::RefCell::new(vec![]); }
+/// Axis::try_from(v) must be v / |v| (same direction AND sense)
+fn axis_of(raw: Vec3) -> Axis {
+    let ax = Axis::try_from(raw).unwrap();
+    let n = ((raw.x as f64).powi(2) + (raw.y as f64).powi(2) + (raw.z as f64).powi(2)).sqrt();
+    let a = *ax.vec();
+    let d = ((a.x as f64 - raw.x as f64 / n).abs()).max((a.y as f64 - raw.y as f64 / n).abs()).max((a.z as f64 - raw.z as f64 / n).abs());
+    if !(d <= 1e-5) { AXIS_BAD.with(|b| b.borrow_mut().push(format!("kind=axis-normalisation Axis::try_from({:?}) = {:?}, expected {:?}", [raw.x, raw.y, raw.z], [a.x, a.y, a.z], [raw.x as f64 / n, raw.y as f64 / n, raw.z as f64 / n]))); }
+    ax
+}
+/// a raw axis vector: usually oblique, sometimes aligned with a coordinate axis (either sign, any length)
+fn raw_axis(r: &mut Rng) -> Vec3 {
+    if r.chance(0.3) {
+        let k = r.below(3); let mut a = [0.0f32; 3];
+        a[k] = *r.pick(&[1.0f32, -1.0, 2.0, -2.0, 0.5, -3.5]);
+        Vec3::new(a[0], a[1], a[2])
+    } else { Vec3::new(nz(r), gen_tame(r), gen_tame(r)) }
+}
+
 struct Built { id: usize, params: Vec<f32>, inputs: Vec<Tree>, tree: Tree, expect: std::boxed::Box<dyn Fn([f64; 3]) -> Option<f64>>, exact_sign_only: bool, name: &'static str }
 
 fn rot_data(axis: &Vec3, angle_deg: f32) -> [f32; 9] {
@@ -84,7 +104,7 @@ fn build(r: &mut Rng, id: usize) -> Built {
                Built { id, params: vec![c[0], c[1], c[2], rad], inputs: vec![], tree: b.tree(), expect: bx!(move |p: [f64; 3]| Some(b.val(p))), exact_sign_only: false, name: "Sphere" } }
         3 => { let l = [gen_tame(r), gen_tame(r), gen_tame(r)]; let u = [l[0] + pos(r), l[1] + pos(r), l[2] + pos(r)]; let b = Base::Box(l, u);
                Built { id, params: vec![l[0], l[1], l[2], u[0], u[1], u[2]], inputs: vec![], tree: b.tree(), expect: bx!(move |p: [f64; 3]| Some(b.val(p))), exact_sign_only: false, name: "Box" } }
-        4 => { let raw = v3([nz(r), gen_tame(r), gen_tame(r)]); let ax = Axis::try_from(raw).unwrap(); let off = gen_tame(r);
+        4 => { let raw = raw_axis(r); let ax = axis_of(raw); let off = gen_tame(r);
                let a = *ax.vec(); let t: Tree = Plane { axis: ax, offset: off }.into();
                Built { id, params: vec![a.x, a.y, a.z, off], inputs: vec![], tree: t,
                        expect: bx!(move |p: [f64; 3]| Some(a.x as f64 * p[0] + a.y as f64 * p[1] + a.z as f64 * p[2] - off as f64)), exact_sign_only: false, name: "Plane" } }
@@ -112,7 +132,7 @@ fn build(r: &mut Rng, id: usize) -> Built {
         13..=17 => {
             let off = gen_tame(r);
             let (ax, name): (Axis, &'static str) = match id {
-                13 => (Axis::try_from(v3([nz(r), gen_tame(r), gen_tame(r)])).unwrap(), "Reflect"),
+                13 => (axis_of(raw_axis(r)), "Reflect"),
                 14 => (Axis::X, "ReflectX"), 15 => (Axis::Y, "ReflectY"), 16 => (Axis::Z, "ReflectZ"),
                 _ => (Axis::try_from(Vec3::new(-1.0, 1.0, 0.0)).unwrap(), "ReflectXY"),
             };
@@ -132,7 +152,7 @@ fn build(r: &mut Rng, id: usize) -> Built {
         18..=21 => {
             let ang = *r.pick(&[90.0f32, 45.0, -30.0, 180.0, 10.0, 270.0]) + if r.chance(0.3) { gen_tame(r) } else { 0.0 };
             let c = [gen_tame(r), gen_tame(r), gen_tame(r)];
-            let (ax, name): (Axis, &'static str) = match id { 18 => (Axis::try_from(v3([nz(r), gen_tame(r), gen_tame(r)])).unwrap(), "Rotate"),
+            let (ax, name): (Axis, &'static str) = match id { 18 => (axis_of(raw_axis(r)), "Rotate"),
                 19 => (Axis::X, "RotateX"), 20 => (Axis::Y, "RotateY"), _ => (Axis::Z, "RotateZ") };
             let a = *ax.vec();
             let tree: Tree = match id {
@@ -195,6 +215,7 @@ pub fn run(seed: u64, count: usize, outdir: &str) -> std::io::Result<i32> {
         impls.push_str(&il); impls.push('\n');
         distinct.insert(line.clone());
         if samples_out.len() < 3 && il.len() < 400 { samples_out.push(format!("{} :: {line} => {il}", b.name)); }
+        for m in AXIS_BAD.with(|b| std::mem::take(&mut *b.borrow_mut())) { fails += 1; writeln!(oracle, "FAIL case={ci} {m}").unwrap(); }
         // ---- geometry oracle
         let mut nbad = 0;
         for _ in 0..24 {
